@@ -229,10 +229,16 @@ Deliver(r) ==
 (***************************************************************************)
 (* store/getter.go                                                         *)
 (***************************************************************************)
+(* The accessor calls behind the store getter take the context: with a context that is already over
+   some of them fail (namespace data is gathered by an errgroup bound to it), others do not look. *)
 StoreGet ==
     /\ Running("store")
-    /\ Deliver(IF StoreHas THEN [getter |-> "store", ok |-> TRUE, items |-> AllGood, errs |-> {}]
-                           ELSE [getter |-> "store", ok |-> FALSE, items |-> Zero, errs |-> {"notfound"}])
+    /\ \E hit \in BOOLEAN :
+         /\ hit => StoreHas
+         /\ (~hit /\ StoreHas) => gctx # "live"
+         /\ Deliver(IF hit THEN [getter |-> "store", ok |-> TRUE, items |-> AllGood, errs |-> {}]
+                    ELSE [getter |-> "store", ok |-> FALSE, items |-> Zero,
+                          errs |-> IF StoreHas THEN {gctx} ELSE {"notfound"}])
     /\ UNCHANGED <<p, ctx, nAns, lastK, avail, bsVars, panic, poisoned, onlyNF, sawNF, hist, timing, usedTimeout>>
 
 (***************************************************************************)
